@@ -111,6 +111,9 @@ def protocol(tier: str, prop: str) -> list[dict]:
         dict(d, kind="discrete", dims=[2], obs_kind="discrete", stack=[ID, TL, FO]),
         dict(d, kind="boxscalar", dims=[2], stack=[TR, CR, TL, TO]),
         dict(d, kind="discrete", dims=[3], S=8, masked=True, stack=[TO, CO, TL, TR]),
+        # one-sided action boxes under ClipAction: the finite side must still be clipped
+        dict(d, kind="box", dims=[2], stack=[["HalfBoxHigh"], CA, TL]),
+        dict(d, kind="boxscalar", dims=[4], stack=[["HalfBoxLow"], CA]),
     ]
     if prop == "C12":
         base = [base[i] for i in (1, 2, 4, 5, 6, 8, 10)]   # 5: Dict observations flattened (entry order is static structure)
@@ -237,6 +240,11 @@ def train(tier: str, prop: str) -> list[dict]:
         c("PPO", "sim_dict", 2, 4, "rec1", [17], p_fresh=0.5),    # Dict observations with many string keys, often re-run in a fresh interpreter
         c("DQN", "sim_dict", 1, 3, "list", [13], starts=3, p_fresh=0.5),
     ]
+    if prop == "C11":
+        base = base + [dict(mode="ctor_purity", algo="none", env="ctor", n=0, T=0, observer="none", totals=[0],
+                            envs=["G1Standing", "G1Locomotion", "G1Standup", "CartPole", "Pendulum", "Acrobot", "MountainCar", "ContinuousMountainCar",
+                                  "Ant", "HalfCheetah", "Hopper", "Humanoid", "HumanoidStandup", "InvertedPendulum", "InvertedDoublePendulum",
+                                  "Pusher", "Reacher", "Swimmer", "Walker2d"])]
     if prop == "C10":
         base = [b for b in base if b["observer"] in ("rec1", "rec2", "list", "console", "tb", "clock", "video")]
     if prop == "C19":
@@ -349,7 +357,7 @@ def g1(tier: str, prop: str) -> list[dict]:
                "mass_scale_range": [1.2, 1.3], "torso_offset_range": [3.0, 4.0]}
     loco = dict(shifted, lin_vel_x_range=[1.5, 2.0], lin_vel_y_range=[0.6, 0.8], ang_vel_yaw_range=[1.2, 1.5], gait_frequency_range=[2.0, 2.5])
     tasks = [
-        dict(mode="task", env="G1Locomotion", K=8, L=20, kwargs=loco),
+        dict(mode="task", env="G1Locomotion", K=8, L=20, kwargs=dict(loco, control_frequency_hz=25.0)),   # dt = 0.04: the phase advances by 2*pi*f*dt of THIS environment
         dict(mode="task", env="G1Standing", K=8, L=16, kwargs=shifted),
         # single-point ranges (lo == hi) whose value differs from nominal: "degenerate" must not mean "disabled"
         dict(mode="task", env="G1Standup", K=8, L=16, kwargs={"friction_range": [0.8, 0.8], "friction_loss_scale_range": [1.5, 1.5],
